@@ -46,6 +46,8 @@ META = {
                         'dereg_detach(key,T) on residents; second model: join2/leave2 of its own agent holding X,Y'},
     'bounds': {'quick': 'plain with agents a1,a1b,a2 and space, grid with a1,a2: fixpoint of the trigger-free region, '
                         '2 operations deep behind the first trigger; plain two-model product to depth 4',
+               'also': 'join/leave-only walk over four distinct agents with pre-attached components (plain, grid; thorough: all '
+                       'kinds) to the fixpoint',
                'thorough': 'all five kinds with a1,a1b,a2 to the fixpoint, 3 operations behind the first trigger; '
                            'two-model product on plain and grid to depth 6'},
     'assumptions': ['one component instance per (agent, type); component classes use identity equality',
@@ -132,8 +134,13 @@ class AsIs:
 
 
 class Harness:
-    def __init__(self, kind, two_models=False, agents=None, taint_depth=2):
+    def __init__(self, kind, two_models=False, agents=None, taint_depth=2, preattached=None, structural=True):
         self.kind = kind
+        # preattached: {agent key: "XY"} components attached before the walk starts; structural=False offers only
+        # join / leave (used for populations of three distinct agents, where pool ORDER under removal from the
+        # front / middle becomes observable)
+        self.preattached = dict(preattached or {})
+        self.structural = structural
         # the region behind a trigger (pools and agents out of sync) is unbounded in interesting ways but is
         # not what the property is about: it is explored to taint_depth operations from the first trigger
         # (counting it) - enough for F3, which needs one op after F1/F2 - and the bound is reported
@@ -143,7 +150,7 @@ class Harness:
         self.keys = [a[0] for a in self.agents]
         self.idof = dict(self.agents)
         self.config = {'kind': kind, 'two_models': two_models, 'agents': [list(a) for a in self.agents],
-                       'taint_depth': taint_depth}
+                       'taint_depth': taint_depth, 'preattached': self.preattached, 'structural': structural}
         self.cn = Canon(drop={('DiscreteWorld', 'cells'), ('LineWorld', 'cells'), ('GridWorld', 'cells')})
         self.ids = sorted({a[1] for a in self.agents}) + ['zz']
 
@@ -163,6 +170,11 @@ class Harness:
         w.name = {id(c): f'{k}.{T}' for (k, T), c in w.comp.items()}
         w.S = Strict(self.keys)
         w.K = AsIs(self.keys, self.kind != 'plain')
+        for k, types in self.preattached.items():
+            for T in types:
+                w.agents[k].add_component(w.comp[(k, T)])
+                w.S.comps[k].append(T)
+                w.K.comps[k].append(T)
         w.triggers = []          # trigger kinds met so far, in order
         w.taint_steps = 0        # operations applied since (and including) the first trigger
         w.last = None
@@ -184,7 +196,7 @@ class Harness:
         if w.taint_steps >= self.taint_depth:
             return []
         ops = [['join', k] for k in self.keys] + [['leave', i] for i in self.ids]
-        for k in self.keys:
+        for k in (self.keys if self.structural else ()):
             for T in TYPES:
                 ops.append(['attach', k, T])
                 ops.append(['detach', k, T])
@@ -431,6 +443,17 @@ def run(ctx):
     else:
         items = [('plain', True, 6, None), ('grid', True, 6, None)]
         items += [(k, False, 40, None) for k in ('plain', 'space', 'discrete', 'line', 'grid')]
+    # three distinct residents: order of the listing when agents leave from the front / middle and re-join
+    three = [('a1', 'a1'), ('a2', 'a2'), ('a3', 'a3'), ('a4', 'a4')]
+    for kind in (('plain', 'grid') if ctx.tier == 'quick' else ('plain', 'space', 'discrete', 'line', 'grid')):
+        h = Harness(kind, False, three, taint_depth=1, preattached={'a1': 'XY', 'a2': 'X', 'a3': 'YX', 'a4': 'X'},
+                    structural=False)
+        r = hbfs.explore(ctx, h, f'{kind}:four_agents_join_leave', max_depth=40, procs=ctx.procs)
+        ctx.leg(f'{kind}:four_agents_join_leave', **r)
+        if not r.get('fixpoint'):
+            ctx.cap(f'{kind}:four_agents_join_leave: fixpoint not reached')
+        if ctx.violations:
+            return
     for kind, two, depth, agents in items:
         h = Harness(kind, two, agents, taint_depth=2 if ctx.tier == 'quick' else 3)
         name = f'{kind}{"+2models" if two else ""}'
@@ -446,7 +469,8 @@ def run(ctx):
 
 def replay(case):
     cfg = case['config']
-    h = Harness(cfg['kind'], cfg['two_models'], cfg['agents'], cfg.get('taint_depth', 2))
+    h = Harness(cfg['kind'], cfg['two_models'], cfg['agents'], cfg.get('taint_depth', 2), cfg.get('preattached'),
+                cfg.get('structural', True))
     w = hbfs.replay_case(h, case)
     if w.known_now is not None:
         raise w.known_now
